@@ -8,7 +8,9 @@ package zzchain
 // is chosen per slot, record states and all numbers are symbolic.
 
 import (
+	"github.com/cosmos/cosmos-sdk/codec"
 	sdk "github.com/cosmos/cosmos-sdk/types"
+	paramtypes "github.com/cosmos/cosmos-sdk/x/params/types"
 
 	akeeper "github.com/ovrclk/akash/x/audit/keeper"
 	atypes "github.com/ovrclk/akash/x/audit/types"
@@ -138,6 +140,10 @@ type env struct {
 	ms    mtypes.MsgServer
 	NO    int // order slots of group 1 (further groups have one)
 	NP    int // providers
+	cdc   codec.BinaryMarshaler
+	keys  map[string]*sdk.KVStoreKey
+	tkey  *sdk.TransientStoreKey
+	dsub, msub paramtypes.Subspace
 	ngroups map[uint64]int
 	msgGroup int // the group named by the message of this step (0: none)
 	minBid, minDep sdk.Int
@@ -171,10 +177,24 @@ func newEnv(no, np int) *env {
 	for i := 0; i < 5; i++ {
 		e.bank.bal[addr(i)] = amount("wallet")
 	}
-	// wiring: identical to app.setAkashKeepers
+	e.cdc, e.keys, e.tkey = cdc, keys, tkey
+	e.dsub = verif_Subspace(cdc, dtypes.ModuleName, keys["params"], tkey)
+	e.msub = verif_Subspace(cdc, mtypes.ModuleName, keys["params"], tkey)
+	e.wire()
+	e.minBid = amount("bid-min-deposit")
+	e.minDep = amount("deployment-min-deposit")
+	e.mk.SetParams(e.ctx, mtypes.Params{BidMinDeposit: coin(e.minBid), OrderMaxBids: 20})
+	e.dk.SetParams(e.ctx, dtypes.Params{DeploymentMinDeposit: coin(e.minDep)})
+	return e
+}
+
+// wire builds the keepers, hooks and message servers over the environment's stores, identical to
+// app.setAkashKeepers.  Calling it again models a freshly started process on the same chain state.
+func (e *env) wire() {
+	cdc, keys := e.cdc, e.keys
 	e.ek = ekeeper.NewKeeper(cdc, keys[etypes.StoreKey], e.bank)
-	e.dk = dkeeper.NewKeeper(cdc, keys[dtypes.StoreKey], verif_Subspace(cdc, dtypes.ModuleName, keys["params"], tkey), e.ek)
-	e.mk = mkeeper.NewKeeper(cdc, keys[mtypes.StoreKey], verif_Subspace(cdc, mtypes.ModuleName, keys["params"], tkey), e.ek)
+	e.dk = dkeeper.NewKeeper(cdc, keys[dtypes.StoreKey], e.dsub, e.ek)
+	e.mk = mkeeper.NewKeeper(cdc, keys[mtypes.StoreKey], e.msub, e.ek)
 	hook := mhooks.New(e.dk, e.mk)
 	e.ek.AddOnAccountClosedHook(hook.OnEscrowAccountClosed)
 	e.ek.AddOnPaymentClosedHook(hook.OnEscrowPaymentClosed)
@@ -182,11 +202,6 @@ func newEnv(no, np int) *env {
 	e.ak = akeeper.NewKeeper(cdc, keys[atypes.StoreKey])
 	e.ds = dhandler.NewServer(e.dk, e.mk, e.ek)
 	e.ms = mhandler.NewServer(mhandler.Keepers{Escrow: e.ek, Market: e.mk, Deployment: e.dk, Provider: e.pk, Audit: e.ak})
-	e.minBid = amount("bid-min-deposit")
-	e.minDep = amount("deployment-min-deposit")
-	e.mk.SetParams(e.ctx, mtypes.Params{BidMinDeposit: coin(e.minBid), OrderMaxBids: 20})
-	e.dk.SetParams(e.ctx, dtypes.Params{DeploymentMinDeposit: coin(e.minDep)})
-	return e
 }
 
 // ---------- identifiers ----------
